@@ -25,7 +25,7 @@ ASSUMPTIONS = ["exception *types* are compared, not messages (they mention <lamb
 EXHAUSTIVE = {"quick": True, "thorough": True}
 FLOOR = {"quick": 3000, "thorough": 20000}
 MONITORS = False
-VARIANTS = ["plain", "annotated", "method", "nested", "deco1", "deco2", "closure-default", "closure-local-default", "class-attr-default", "captured-params", "captured-params-class", "multi-return"]
+VARIANTS = ["plain", "annotated", "method", "nested", "deco1", "deco2", "closure-default", "closure-local-default", "class-attr-default", "captured-params", "captured-params-class", "multi-return", "guard-return"]
 
 
 def shapes():
@@ -93,6 +93,13 @@ def render(shape, variant):
               "        vals.append('after-conditional-return')", "        return ('else-end', len(vals))",
               "    while vals:", "        x = vals.pop()", "        if x == 'end' or x == 5:", "            continue",
               "        if x == 2:", "            return ('two', len(vals))", "        vals.append('end')", "        return ('last', repr(x), len(vals))"]
+    elif variant == "guard-return":
+        # guard clauses: bare `return` (no value) taken or not depending on the bound arguments, in a function whose *last*
+        # statement is a valued return
+        L += ["def f(%s):" % ", ".join(parts), "    vals = list(" + ret + ")", "    if len(vals) % 2 == 0:", "        return",
+              "    for v in vals:", "        if v == 1:", "            return", "        if v == 2:", "            break",
+              "    n = 0", "    while n < len(vals):", "        n += 1", "        if vals[n - 1] == 3:", "            return",
+              "    return ('tail', len(vals), n)"]
     elif variant == "captured-params":
         # every parameter (also *va / **kw) is read - and the first one rebound - by an inner function
         first = names[0] if names else None
